@@ -127,6 +127,12 @@ def run(ck, tier):
                           'states': v['states'], 'pos': v['pos'], 'place': v['place'], 'tools': v['tools'],
                           'pred': v['preds'][0], 'only_composed': only_c, 'only_reduced': only_r,
                           'src_composed': o['src_composed'], 'src_reduced': o['src_reduced']})
+    # binding self-test: a reduced workflow that drops something the subject DOES depend on must be told apart
+    st = run_compose(sd, [{'lvl': 'step', 'hdr': 'push', 'subj': 'refs', 'preds': ['id-a'], 'states': ['steps'], 'pos': 1,
+                           'place': '', 'tools': False, 'nostub': True}], 1)[0]
+    ck.cov['binding_selftest'] = 'rejected' if (not st['other'] and compare(st) is not None) else 'NOT rejected'
+    if ck.cov['binding_selftest'] != 'rejected':
+        raise Inconclusive('binding self-test failed: %r' % st)
     # G2: shapes of Scope.tla, every job against its reduced workflow
     r = vplib.run_tlc('Scope', 'Scope_c09.cfg', dump='vectors', timeout=3000)
     ck.add_tlc('Scope shapes for reduction: 3 jobs x needs graph x matrix x step id, one reference in a run: step', r)
